@@ -9,7 +9,7 @@ def main(tier, replay=None):
     fams = [dict(scn="local", name="c13-" + f, opts=["mode=c13", "family=" + f] + (["thorough=1"] if tier == "thorough" else []), bounds="0,0,0,0", total=0, deadline=1500, qcap=2000000) for f in ("select", "perm", "instr", "owner", "hdr")]
     run_families(res, "C13", tier, fams)
     res.rule = ("real qmail-local (-n and real mode, real fork/exec of a /bin/sh stand-in, real maildir child, real qmail-queue for forwards) in a "
-                "virtual home.  select: all 128 subsets of 7 .qmail files x 14 extensions (case, dots, slashes, trailing dash, 'default'); perm: "
+                "virtual home.  select: all 256 subsets of 8 .qmail files x 16 extensions (case incl. the boundary letter Z, dots, slashes, trailing dash, 'default'); perm: "
                 "6 file modes x 5 home modes x 5 bodies x {-n, real} x {.qmail, .qmail-list}; instr: every instruction list of length 1..3 (thorough: 4) over "
                 "14 line kinds (comment, blank, programs exiting 0/99/100/111/64/1, mbox, maildir, two forward spellings, +list, trailing "
                 "blanks) x {-n, real, real with x bit}; owner: -owner / -owner-default x 3 senders; hdr: hostile senders/extensions x loop "
